@@ -384,4 +384,14 @@ def R4_vertex(ctx):
     ctx.check(ok, "key->field", "Vertex::new(id, x, y) is not fed from the keys (vertex_id, x, y) respectively: %s" % (detail,), b.where(), detail=str(detail))
 
 
-RULES = [R1_adjacency, R2_ids_are_rows, R3_counts_and_readers, R4_vertex]
+def RA_adjacency_container(ctx):
+    """the adjacency lists are CompactOrderedHashMaps: what a search sees of a vertex is keys()/iter() of that map, what the loader
+    stored is insert().  The container's own rules (every accessor agrees on the slots, growth keeps every entry, dense indices)
+    are therefore part of this property too (shared with C11.R1-R3)."""
+    from props.C11 import R1_slot_table, R2_growth, R3_dense_index
+    R1_slot_table(ctx)
+    R2_growth(ctx)
+    R3_dense_index(ctx)
+
+
+RULES = [R1_adjacency, R2_ids_are_rows, R3_counts_and_readers, R4_vertex, RA_adjacency_container]
